@@ -556,6 +556,18 @@ def fixed_programs():
                 body += [Echo(MCall(Var(n), "count")), Echo(Fld(Var(n), "last"))]
         body += [Echo(SCall("Tally<int>", "bumpTwice")) if False else Echo(MCall(Var("a"), "count"))]
         out.append(Program([Func("main", [], VOID, body)], [cell, tally]))
+    # (3) static and instance field initialisers that call free functions and static methods (of the same and of other classes)
+    basef = Func("basef", [Param(INT, "k")], INT, [Ret(Bin("+", Var("k"), I(40)))])
+    conf = Class("Conf", "", [Field(INT, "v", Bin("+", Call("basef", I(1)), I(1)), static=True), Field(STR, "name", Call("tagf", S("conf")), static=True)], [], [], [], static=True)
+    kk = Class("KK", "", [Field(INT, "w", Call("basef", I(2)), static=True), Field(INT, "u", SCall("KK", "twice", Call("basef", I(3))), static=True),
+                          Field(INT, "f", Bin("+", Call("basef", I(4)), SFld("Conf", "v"))), Field(INT, "g", SCall("KK", "twice", I(5)))],
+               [Method("twice", [Param(INT, "x")], INT, [Ret(Bin("*", Var("x"), I(2)))], static=True)], [Ctor([], [], default=True)], [])
+    tagf = Func("tagf", [Param(STR, "s")], STR, [Ret(Bin("+", Var("s"), S("!")))])
+    for order in ((0, 1), (1, 0)):
+        cls = [conf, kk]
+        out.append(Program([basef, tagf, Func("main", [], VOID, [Echo(SFld("Conf", "v")), Echo(SFld("Conf", "name")), Echo(SFld("KK", "w")), Echo(SFld("KK", "u")),
+                                                                 Decl(C("KK"), "k", New("KK")), Echo(Fld(Var("k"), "f")), Echo(Fld(Var("k"), "g"))])],
+                           [cls[order[0]], cls[order[1]]]))
     for build in (("Shape", "Circle", "Dot"), ("Dot", "Shape", "Circle"), ("Circle", "Dot", "Shape")):
         log = Class("Log", "", [], [Method("seen", [Param(C("Shape"), "s")], INT, [Echo(S("seen(Shape)")), Ret(I(1))], static=True),
                                     Method("seen", [Param(C("Circle"), "c")], INT, [Echo(S("seen(Circle)")), Ret(I(2))], static=True)], [], [], static=True)
